@@ -771,6 +771,28 @@ def _ior_update(func):
     return changed
 
 
+class _FromKeys(ast.NodeTransformer):
+    """dict.fromkeys((k1, k2, ...), c) with literal keys and a constant c is the
+    display {k1: c, k2: c, ...}"""
+    changed = False
+
+    def visit_Call(self, node):
+        self.generic_visit(node)
+        f = node.func
+        if isinstance(f, ast.Attribute) and f.attr == 'fromkeys' and \
+                isinstance(f.value, ast.Name) and f.value.id == 'dict' and \
+                1 <= len(node.args) <= 2 and not node.keywords and \
+                isinstance(node.args[0], (ast.Tuple, ast.List)) and \
+                all(isinstance(k, ast.Constant) for k in node.args[0].elts) and \
+                (len(node.args) == 1 or isinstance(node.args[1], ast.Constant)):
+            v = node.args[1] if len(node.args) == 2 else ast.Constant(value=None)
+            self.changed = True
+            return ast.copy_location(ast.Dict(
+                keys=[clone(k) for k in node.args[0].elts],
+                values=[clone(v) for _ in node.args[0].elts]), node)
+        return node
+
+
 def _scalarize_dicts(func):
     """a local bound once to a dict display with literal string keys, used only
     as `d['k']` (read, store, augmented store) with those keys and returned as
@@ -1947,6 +1969,12 @@ def normalize(func):
         changed = True
     if _exc_traceback(new):
         changed = True
+    fk = _FromKeys()
+    for k, st in enumerate(new.body):
+        new.body[k] = fk.visit(st)
+    if fk.changed:
+        changed = True
+        ast.fix_missing_locations(new)
     if _scalarize_dicts(new):
         changed = True
     mod_ = _module_of(func)
